@@ -15,15 +15,29 @@ def construction_cases(ctx, rep):
     rng = ctx.sub_rng("c02c")
     n = 0
     stats = {"infeasible_x0": 0, "infeasible_after_snap": 0, "feasible": 0}
-    for _ in range(40 if ctx.quick else 300):
+    for _ in range(70 if ctx.quick else 400):
         D = rng.randint(1, 3)
         calls = [0]
         def fun(x):
             calls[0] += 1
             return float(np.sum(np.asarray(x) ** 2))
-        kind = rng.choice(["x0", "snap", "ok"])
+        kind = rng.choice(["x0", "snap", "ok", "edge", "edge"])
         lb, ub, plb, pub = np.full(D, -4.0), np.full(D, 4.0), np.full(D, -2.0), np.full(D, 2.0)
-        if kind == "x0":
+        opts_extra = {}
+        if kind == "edge":
+            # a coarse search grid, a hard bound that is not a grid point, a start point within half a grid cell of that bound and a feasible
+            # set that is a thin strip along the face: wherever the gridised (and pulled-back) start ends up, it must have been checked
+            lb, ub = np.full(D, -round(rng.uniform(3.3, 3.99), 3)), np.full(D, round(rng.uniform(3.3, 3.99), 3))
+            opts_extra = {"search_grid_number": rng.choice([2, 3, 4, 5, 6, 7])}
+            side = rng.choice([-1, 1])
+            bnd = lb[0] if side < 0 else ub[0]
+            x0 = np.array([rng.uniform(-1.5, 1.5) for _ in range(D)])
+            x0[0] = bnd - side * rng.choice([0.0, 1e-3, 0.02, 0.1])
+            wdt = rng.choice([0.005, 0.05, 0.15, 0.4])
+            cons = lambda X, bnd=bnd, side=side, wdt=wdt: np.abs(np.atleast_2d(X)[:, 0] - bnd) - wdt      # feasible: within wdt of the face
+            if abs(x0[0] - bnd) > wdt:
+                kind = "x0"
+        elif kind == "x0":
             x0 = np.array([rng.uniform(1.0, 1.9) for _ in range(D)])
             cons = lambda X: np.atleast_2d(X)[:, 0] - 0.5                      # x0 itself infeasible
         elif kind == "snap":
@@ -36,7 +50,7 @@ def construction_cases(ctx, rep):
             cons = lambda X: np.atleast_2d(X)[:, 0] - 0.5
         n += 1
         try:
-            b = BADS(fun, x0, lb, ub, plb, pub, non_box_cons=cons, options={"display": "off"})
+            b = BADS(fun, x0, lb, ub, plb, pub, non_box_cons=cons, options=dict({"display": "off"}, **opts_extra))
             raised = None
             u0 = b.var_transf.inverse_transf(np.atleast_2d(b.u))
             feas_after = bool(np.all(np.asarray(cons(u0)) <= 0))
@@ -45,6 +59,20 @@ def construction_cases(ctx, rep):
         except Exception as ex:
             raised = type(ex).__name__
         case = {"kind": "construct", "D": D, "variant": kind, "x0": [float(v) for v in x0]}
+        # whatever the variant: a start point that the constructor ACCEPTS (as moved onto the grid and into the box) satisfies the constraint
+        if raised is None and not feas_after:
+            stats["accepted_starts_checked"] = stats.get("accepted_starts_checked", 0)
+            rep.violation("start_rejected", "bads.py:__init__ / _init_optim_state_", f"the constructor accepted a start point whose gridised position {u0.ravel().tolist()} violates the non-box "
+                          f"constraint (x0={x0.tolist()}, lb={lb.tolist()}, ub={ub.tolist()}, options {opts_extra})", case)
+            continue
+        if kind == "edge":
+            stats["edge"] = stats.get("edge", 0) + 1
+            stats["edge_rejected"] = stats.get("edge_rejected", 0) + (raised == "ValueError")
+            if raised not in (None, "ValueError"):
+                rep.disagree("Pipe.construct ~ BADS.__init__", f"start point near a face raised {raised}", case)
+            elif raised == "ValueError" and calls[0] != 0:
+                rep.violation("no_call_before_reject", "bads.py:__init__", f"target called {calls[0]} times before the infeasible start point was rejected", case)
+            continue
         if kind in ("x0", "snap"):
             stats["infeasible_x0" if kind == "x0" else "infeasible_after_snap"] += 1
             if raised != "ValueError":
